@@ -121,7 +121,7 @@ theorem pg_postTable_congr (ty : Ty) (a : Attrs) {ks' ks : List Box} (cols : Lis
       simp [gridOKw, this]
   unfold postTable tableKidsOK
   rw [hg, pg_isEmpty_of_map _ h,
-    pg_all_strip (fun c => rawTy c.ty && !(c.ty == .inline && c.a.running)) (fun c => by cases c; rfl) h,
+    pg_all_strip (fun c => rawTy c.ty) (fun c => by cases c; rfl) h,
     pg_all_strip (childAllowed ty a) (pg_childAllowed_strip ty a) h,
     pg_all_strip (fun c => c.ty == .tableCaption || isTable c.ty) (fun c => by cases c; rfl) h,
     pg_all_strip (fun c => c.ty == .tableRowGroup) (fun c => by cases c; rfl) h,
@@ -219,27 +219,27 @@ theorem pg_postGrid_attrs (ty : Ty) (a a' : Attrs) (ks cs : List Box) (h : a'.tw
 
 /-- an anonymous block around one inline-level box satisfies `postTable` -/
 theorem pg_postTable_block (wa : Attrs) (c : Box) (hw : wa.tw = false) (hi : isInlineLevel c.ty = true)
-    (hr : (rawTy c.ty && !(c.ty == .inline && c.a.running)) = true) : postTable .block wa [c] [] = true := by
+    (hr : rawTy c.ty = true) : postTable .block wa [c] [] = true := by
   cases c with
   | mk t ca k cl =>
-    simp only [Box.ty, Box.a] at hi hr
+    simp only [Box.ty] at hi hr
     cases t <;> first
       | (simp [isCls] at hi; done)
-      | (simp [rawTy] at hr; simp [postTable, tableKidsOK, gridOKw, childAllowed, hw, hr, isCls, rawTy, Box.ty, Box.a])
+      | (simp [rawTy] at hr; simp [postTable, tableKidsOK, gridOKw, childAllowed, hw, isCls, rawTy, Box.ty, Box.a])
 
 theorem pg_midPG_block (wa : Attrs) (c : Box) (hw : wa.tw = false) (hi : isInlineLevel c.ty = true)
-    (hr : (rawTy c.ty && !(c.ty == .inline && c.a.running)) = true) : pg_midPG .block wa [c] [] = true := by
+    (hr : rawTy c.ty = true) : pg_midPG .block wa [c] [] = true := by
   unfold pg_midPG; rw [pg_postTable_block wa c hw hi hr]; rfl
 
 theorem pg_postGrid_block (wa : Attrs) (c : Box) (hw : wa.tw = false) (hi : isInlineLevel c.ty = true)
-    (hr : (rawTy c.ty && !(c.ty == .inline && c.a.running)) = true) : postGrid .block wa [c] [] = true := by
+    (hr : rawTy c.ty = true) : postGrid .block wa [c] [] = true := by
   unfold postGrid; rw [pg_postTable_block wa c hw hi hr]; rfl
 
 
 /-! ### flexKids / gridKids -/
 
 /-- what `postTable` asks of every child beyond `childAllowed` -/
-abbrev pg_rawKid (c : Box) : Bool := rawTy c.ty && !(c.ty == .inline && c.a.running)
+abbrev pg_rawKid (c : Box) : Bool := rawTy c.ty
 
 theorem pg_flexKids_all (q : Box → Bool)
     (hq : ∀ (c : Box) (a' : Attrs), a'.running = c.a.running → q (c.setA a') = q c)
@@ -282,7 +282,7 @@ theorem pg_gridKids_all (q : Box → Bool)
       · rw [List.all_cons, hc1, ih]; rfl
 
 theorem pg_rawKid_setA (c : Box) (a' : Attrs) (h : a'.running = c.a.running) : pg_rawKid (c.setA a') = pg_rawKid c := by
-  cases c; simp only [pg_rawKid, Box.setA, Box.ty, Box.a] at h ⊢; rw [h]
+  cases c; rfl
 
 theorem pg_childAllowed_setA (ty : Ty) (a : Attrs) (c : Box) (a' : Attrs) (h : a'.running = c.a.running) :
     childAllowed ty a (c.setA a') = childAllowed ty a c := by
@@ -552,8 +552,8 @@ theorem pg_kids_level {ty : Ty} {a : Attrs} {ks cols : List Box}
   intro k hk
   have h3k := fg_mem_of_all h3 k hk
   have h4k := fg_mem_of_all h4 k hk
-  simp only [pg_rawKid, Bool.and_eq_true] at h3k
-  exact pg_kid_level ty a ks cols k hc h5 h3k.1 h4k
+  simp only [pg_rawKid] at h3k
+  exact pg_kid_level ty a ks cols k hc h5 h3k h4k
 
 theorem pg_flex_node (ty : Ty) (a : Attrs) (ks cols : List Box) (hf : isFlexContainer ty = true)
     (hpt : postTable ty a ks cols = true) :
